@@ -12,7 +12,7 @@ Definition owned (g : graph) (o : op) (x : N) : Prop :=
   | ORemoveNsTopo nm => exists s, In s (by_name g CNS nm) /\ class_of g s = CNS /\ O_ns g s x
   | ORemoveComponent n c => exists c', In c' (first_neighbor g n RHas CComp) /\ name_of g c' = c /\ O_comp g c' x
   | ONodeRemoveNs n sn => exists s, In s (first_neighbor g n RHas CNS) /\ name_of g s = sn /\ O_ns g s x
-  | ODisconnect _ i => exists p, get_peers g i = Some [p] /\ O_cp g p true x
+  | ODisconnect _ i => exists p, get_peers_typed g i T_ServicePort = Some [p] /\ O_cp g p true x
   | OUnpeer a b => exists xy, unpeer_ends g a b = Some [xy] /\ (x = fst xy \/ x = snd xy)
   | ORemoveInterface s nm => exists i, In i (cpn g s) /\ name_of g i = nm /\ O_cp g i true x
   | ORemoveChild p nm => In x (cpn g p) /\ name_of g x = nm
